@@ -623,6 +623,22 @@ func (e *Env) evalCall(n *ECall) Val {
 			e.fail("dynPtr needs a pointer type")
 		}
 		return Val{T: t, Term: fmt.Sprintf("(ite (= (i_tag %s) %d) (i_val %s) 0)", v.Term, e.x.C.typeID(t), v.Term)}
+	case "lastDecoded":
+		// lastDecoded("*T"): the target of the most recent successful RawXMLValue.Decode whose dynamic type is *T
+		// (ghost dlLast, indexed by the type tag), nil if there was none
+		ts, ok := n.Args[0].(*EStr)
+		if !ok {
+			e.fail("lastDecoded(\"*Type\")")
+		}
+		t, _ := e.x.resolveType(e.pkg, ts.V)
+		if _, isPtr := t.Underlying().(*types.Pointer); !isPtr {
+			e.fail("lastDecoded needs a pointer type")
+		}
+		g := e.lookup("dlLast")
+		id := e.x.C.typeID(t)
+		// invariant of the ghost log: its only writer (the contract of RawXMLValue.Decode) stores pointers that exist
+		e.st.assume(fmt.Sprintf("(< (i_val (select %s %d)) %s)", g.Term, id, e.st.alloc))
+		return Val{T: t, Term: fmt.Sprintf("(ite (= (i_tag (select %s %d)) %d) (i_val (select %s %d)) 0)", g.Term, id, id, g.Term, id)}
 	case "dynIs", "dynVal":
 		// dynIs(x, "T"): the dynamic type of interface value x is the (non-pointer) type T; dynVal(x, "T"): its value
 		v := arg(0)
